@@ -131,6 +131,7 @@ def C07(rep, prog, tier):
             mcsops.preprocess_flow(rep, ex, be, "LEX" if lex else "W")
             mcsops.w_entry(rep, ex, be, strict=False, extended=True, prefix="LEX" if lex else "W", n_objects=2 if lex else 1)
     part.check_all(rep, ex)
+    wrappers.manager_init(rep, ex, roles=("belief_base", "inference_system", "weakly"))
 
 
 def _mcs_operators(rep, ex, table, strict=True, extended=True, rec=True):
@@ -162,6 +163,7 @@ def C11(rep, prog, tier):
     ex = Explorer(prog, rep)
     table = wrappers.dispatch(rep, ex)
     wrappers.backend_dispatch(rep, ex)
+    wrappers.manager_init(rep, ex, roles=("belief_base", "inference_system", "smt_solver", "pmaxsat_solver"))
     _mcs_operators(rep, ex, table)
     enum.loop(rep, ex)
     enum.violated(rep, ex)
@@ -379,6 +381,7 @@ def C05(rep, prog, tier):
         cinf.answer(rep, ex, cls)
         cinf.key_discipline(rep, ex, cls)
         cinf.query_names(rep, ex, cls)
+        cinf.preprocess_flow(rep, ex, cls)
         wrappers.init_preserves_state(rep, ex, only_cls=cls)
     wrappers.shortcut_guard(rep, ex)
     wrappers.shortcut_dominance(rep, ex)
@@ -427,6 +430,7 @@ def C17(rep, prog, tier):
     cinf.summation(rep, ex)
     preocf.world_literals(rep, ex)
     preocf.factory_forwarding(rep, ex, which=("init_random_min_c_rep",))
+    crev.front_wiring(rep, ex)
 
 
 def C18(rep, prog, tier):
@@ -449,6 +453,7 @@ def C20(rep, prog, tier):
                        "continued lazy computation are not decided")
     ex = Explorer(prog, rep)
     preocf.save_restore(rep, ex)
+    preocf.pickled_state(rep, ex)
     preocf.impacts_keys(rep, ex)
     preocf.impacts_accept(rep, ex)
     preocf.format_agree(rep, ex)
